@@ -51,10 +51,10 @@ UNKNOWN = ["x-unknown", "utf-9", "no-such-codec", "iso-8859-99", "utf8mb4", "-",
 PYSPECIFIC = ["unicode_escape", "idna", "punycode", "raw_unicode_escape", "utf-7", "rot13", "hex", "undefined", "string-escape",
               "unicode-escape", "base64", "charmap"]
 SPELLINGS = {
-    "utf-8": ["utf-8", "UTF-8", "utf8", "Utf_8", "UTF8", "u8"],
-    "latin-1": ["latin-1", "Latin1", "iso-8859-1", "ISO-8859-1", "l1", "iso8859-1"],
-    "windows-1252": ["windows-1252", "Windows-1252", "cp1252", "CP1252", "windows_1252"],
-    "shift_jis": ["shift_jis", "x-sjis", "Shift-JIS", "sjis", "shift-jis"],
+    "utf-8": ["utf-8", "UTF-8", "utf8", "Utf_8", "UTF8", "u8", "u-tf8", "UTF-8-"],
+    "latin-1": ["latin-1", "Latin1", "iso-8859-1", "ISO-8859-1", "l1", "iso8859-1", "l-atin1", "Lat-in-1"],
+    "windows-1252": ["windows-1252", "Windows-1252", "cp1252", "CP1252", "windows_1252", "cp-1252", "CP-12-52"],
+    "shift_jis": ["shift_jis", "x-sjis", "Shift-JIS", "sjis", "shift-jis", "s-jis", "X-SJIS"],
     "mac-roman": ["mac-roman", "macintosh", "MacRoman", "mac_roman", "Macintosh"],
     "ascii": ["ascii", "ASCII", "us-ascii", "646"],
     "utf-16-le": ["utf-16le", "UTF-16LE", "utf-16-le", "utf_16_le"],
@@ -62,7 +62,7 @@ SPELLINGS = {
     "utf-32-le": ["utf-32le", "UTF-32LE", "utf-32-le"],
     "utf-32-be": ["utf-32be", "utf-32-be"],
     "euc-jp": ["euc-jp", "EUC-JP", "eucjp", "euc_jp"],
-    "koi8-r": ["koi8-r", "KOI8-R", "koi8_r"],
+    "koi8-r": ["koi8-r", "KOI8-R", "koi8_r", "ko-i8-r"],
     "big5": ["big5", "Big5", "big-5"],
     "gb2312": ["gb2312", "GB2312", "gb-2312"],
 }
@@ -542,7 +542,8 @@ def classify(c, o):
         keys += [f"bom:{c.get('bom')}", f"decl:{c.get('decl')}", f"declname:{c.get('declclass')}", f"codec:{c.get('codec')}",
                  f"args:k{len(c['known'])}u{len(c['user'])}x{len(c['exclude'])}", "html:%d" % c["is_html"]]
         if o.get("winner") is not None:
-            srcs = ([("known", e) for e in c["known"] + (c.get("override") or [])] + [("bom", e) for e in BOM_NAMES] + [("user", e) for e in c["user"]]
+            sniffed = oracle_bom(bytes.fromhex(c["markup_hex"]))[1]
+            srcs = ([("known", e) for e in c["known"] + (c.get("override") or [])] + ([("bom", sniffed)] if sniffed else []) + [("user", e) for e in c["user"]]
                     + [("fallback-utf8", "utf-8"), ("fallback-1252", "windows-1252")])
             src = next((s for s, e in srcs if e == o["winner"]), "declared")
             keys.append("winner:" + src)
